@@ -24,6 +24,12 @@ TRUSTED_BASE = [
 ASSUMPTIONS = ['content bytes are arbitrary (symbolic array, symbolic length)']
 
 
+# native stand-ins for obligations that are no longer generated (see pyvc/runner.py): by obligation-name prefix
+STANDIN_REPLAY = [('C07.is_kanji.', dict(fn='replay_is_kanji')), ('is_kanji.', dict(fn='replay_is_kanji')),
+                  ('C07.is_alphanumeric.', dict(fn='replay_is_alphanumeric')), ('is_alphanumeric.', dict(fn='replay_is_alphanumeric')),
+                  ('C07.find_mode.', dict(fn='replay_find_mode')), ('find_mode.', dict(fn='replay_find_mode'))]
+
+
 def tasks(tier, seed):
     ts = [Task('alnum_set', MOD, 'task_alnum_set', (), backend='ground', fuc=['segno.encoder._ALPHANUMERIC_PATTERN', 'segno.consts.ALPHANUMERIC_CHARS']),
           Task('is_kanji', MOD, 'task_is_kanji', (), fuc=['segno.encoder.is_kanji']),
